@@ -29,9 +29,8 @@ def tcls(st, ft):
 
 
 def dens_case(ctx, rho, z, st, ft, kind, tag) -> None:
-    kw = {"inp": gen.arr(rho), "zinp": gen.arr(z), "suspect_threshold": st, "fail_threshold": ft}
-    if ctx.rng.random() < 0.2:
-        kw["inp"], kw["zinp"] = list(rho), list(z)
+    kw = {"inp": gen.carried(ctx.rng, rho, poisons=(1000.0, 1050.0, 1025.0)), "zinp": gen.carried(ctx.rng, z, poisons=(0.0, 500.0, -5.0)),
+          "suspect_threshold": st, "fail_threshold": ft}
     o, adm = client.expect(ctx, "C13", "qartod.density_inversion_test", kw,
                            lambda: models.density_inversion(rho, z, st, ft),
                            logical={"rho": rho, "z": z, "suspect_threshold": st, "fail_threshold": ft},
